@@ -90,6 +90,7 @@ class Probe(EventListener):
         self.kind = kind
         self.stat = stat
         self.names = {}
+        self.last = {}
         for n, g in PUBLISHED[kind].items():
             self.names[id(getattr(StatEvents, n))] = (n, g)
 
@@ -103,6 +104,7 @@ class Probe(EventListener):
             now = getattr(self.stat, g[0])(*g[1:])
         except Exception as e:
             now = "raised:" + type(e).__name__
+        self.last[n] = (event.content, g)
         if not same(event.content, now):
             self.ext.mismatches.append(
                 "statistic #%d (%s) published %s = %r but %s() returns %r at that moment"
@@ -137,6 +139,7 @@ class StatsExt:
             model.stats.append(st)
             if self.case.get("probe", False):
                 pr = Probe(self, i, kind, st)
+                st._vf_probe = pr
                 for n in PUBLISHED[kind]:
                     st.add_listener(getattr(StatEvents, n), pr)
         model.streams = [MersenneTwister(s) for s in self.case.get("stream_seeds", [])]
@@ -192,6 +195,22 @@ class StatsExt:
             self.errors.append("observation %r into statistic #%d (%s) raised %s: %s"
                                % (value, i, kind, type(e).__name__, e))
             raise
+        # what was published for this observation must describe the state that
+        # includes it (not the state before the update)
+        pr = getattr(st, "_vf_probe", None)
+        if pr is not None:
+            for n, (content, g) in pr.last.items():
+                try:
+                    now = getattr(st, g[0])(*g[1:])
+                except Exception:
+                    continue
+                if not same(content, now):
+                    self.mismatches.append(
+                        "statistic #%d (%s): the last %s published for observation %r is "
+                        "%r but %s() returns %r once the observation is registered"
+                        % (i, kind, n, value, content, g[0], now))
+                    break
+            pr.last = {}
 
 
 def shadow(kind, obs, end_time=None):
